@@ -12,7 +12,8 @@ from .peer import PeerSim
 
 MARK = b"8=FIX."
 CHUNK_LAWS = ["whole", "cut1", "cut1", "cut2", "byte", "small", "mixed", "marker", "over4096", "all"]
-CORRUPT_KINDS = ["subst", "delete", "insert", "insert_nul", "dup"]
+CORRUPT_KINDS = ["subst", "delete", "insert", "insert_nul", "dup", "insert_special", "subst_special"]
+SPECIAL_BYTES = b"\n\r\t +-.0123456789=\x01\x00\x0b\x0c\x85\xa0"
 MALFORMED = ["bodylen_alpha", "bodylen_neg", "bodylen_huge", "cks_alpha", "tag_alpha", "no_equals",
              "empty_field", "wrong_order", "truncated", "wrong_begin", "blob",
              "odd_dup_tag", "odd_tag_after_group", "odd_group_structure", "odd_random_tags"]
@@ -191,6 +192,21 @@ class StreamSim(PeerSim):
             n = conn.inflight[self.peer_side()]
             pos = r.randrange(n)
             b = r.randrange(1 if cfg["avoid_nul"] else 0, 256)
+            if kind in ("insert_special", "subst_special"):
+                # whitespace / sign / digit / separator bytes right at field boundaries: the places where a
+                # lenient int() or a regex accepts what a byte comparison would not
+                data = b"".join(conn.q[self.peer_side()])
+                cands = []
+                for key in (b"\x0110=", b"\x019=", b"\x0134="):
+                    i = data.find(key)
+                    while i != -1 and len(cands) < 200:
+                        j = data.find(b"\x01", i + 1)
+                        if j != -1:
+                            cands.extend(range(i + len(key), j + 1))
+                        i = data.find(key, i + 1)
+                if cands:
+                    pos = r.choice(cands)
+                b = r.choice([x for x in SPECIAL_BYTES if x or not cfg["avoid_nul"]])
             return ["corrupt", kind, pos, b]
         if proto[0] == "malformed":
             kinds = [k for k in cfg["fault_kinds"] if k in MALFORMED] or ["blob"]
@@ -288,13 +304,13 @@ class StreamSim(PeerSim):
         if not data:
             return
         pos = pos % len(data)
-        if kind == "subst":
+        if kind in ("subst", "subst_special"):
             if data[pos] == b:
                 b = (b + 1) % 256
             data[pos] = b
         elif kind == "delete":
             del data[pos]
-        elif kind == "insert":
+        elif kind in ("insert", "insert_special"):
             data.insert(pos, b)
         elif kind == "insert_nul":
             data.insert(pos, 0)
